@@ -179,10 +179,21 @@ def Qratio(z1, z2, nstop, dns1 = None, dns2 = None, eps1 = 1e-3, eps2 = 1e-16):
     b2 = imag(z2)
     qns[0] = exp(-2.*(b2-b1)) * (exp(-1j*2.*a1)-exp(-2.*b1)) / (exp(-1j*2.*a2)
                                                                 - exp(-2.*b2))
+    def psi_ratio(d1, z, i):
+        # psi_{i-1}(z)/psi_i(z) = D^1_i + i/z. Next to a zero of psi_{i-1}
+        # this sum cancels, and the lost digits no longer match the ones lost
+        # in the (then large) D^1_{i-1} it is multiplied with one order
+        # earlier. Written in terms of D^1_{i-1} itself the two stay
+        # consistent and the product keeps its accuracy.
+        ratio = d1[i] + i/z
+        if abs(ratio) < 0.1*abs(i/z):
+            ratio = 1./(i/z - d1[i-1])
+        return ratio
+
     # Loop to do upwards recursion in eqn. 33
     for i in arange(1, nstop+1):
-        qns[i] = qns[i-1]* ( (d3z1[i] + i/z1) * (d1z2[i] + i/z2)
-	       		     )  / ((d3z2[i] + i/z2) * (d1z1[i] + i/z1) )
+        qns[i] = qns[i-1]* ( (d3z1[i] + i/z1) * psi_ratio(d1z2, z2, i)
+	       		     )  / ((d3z2[i] + i/z2) * psi_ratio(d1z1, z1, i) )
     return qns
 
 def R_psi(z1, z2, nmax, eps1 = 1e-3, eps2 = 1e-16):
